@@ -202,6 +202,8 @@ class RenderCount:
                     self.call_closure(v[1], e, env, counts, v[2])
                     return
                 tgt = self.prog.funcs.get(f.id)
+                if tgt is not None and self.cur and self.prog.shadowed(self.cur[-1], f.id):
+                    tgt = None  # a callback parameter
                 if tgt is not None and tgt.cls is None and f.id not in NO_DESCEND:
                     self.call(tgt, e, env, counts)
                     return
